@@ -25,6 +25,7 @@ type Region struct {
 	Server      string
 	Offline     bool // hosted by nobody (answers NSRE everywhere)
 	NotInMeta   bool // served, but hbase:meta has no row for it (yet)
+	MetaOffline bool // its hbase:meta row carries offline=true (a region in transition / a split parent)
 }
 
 // Contains reports whether row lies in [Start,Stop).
@@ -64,18 +65,35 @@ type Event struct {
 
 // Log is the append-only event log (one clock, one process).
 type Log struct {
-	mu     sync.Mutex
-	start  time.Time
-	events []Event
+	mu      sync.Mutex
+	start   time.Time
+	events  []Event
+	dropped int64
 }
+
+// maxLogEvents bounds the log of one cluster: a client in a hot loop (which the
+// checks report from what was logged until then) must not take the process down.
+const maxLogEvents = 1 << 21
 
 // Add appends an event.
 func (l *Log) Add(e Event) {
 	l.mu.Lock()
+	if len(l.events) >= maxLogEvents {
+		l.dropped++
+		l.mu.Unlock()
+		return
+	}
 	e.Seq = int64(len(l.events))
 	e.T = time.Since(l.start)
 	l.events = append(l.events, e)
 	l.mu.Unlock()
+}
+
+// Dropped returns how many events were not recorded because the log was full.
+func (l *Log) Dropped() int64 {
+	l.mu.Lock()
+	defer l.mu.Unlock()
+	return l.dropped
 }
 
 // Snapshot returns a copy of the events so far.
@@ -156,6 +174,9 @@ type Exc struct {
 	Stack string
 	// KillConn: close the connection after sending (connection-fatal classes).
 	KillConn bool
+	// Omit (per-action, inside a multi-request only): the action is neither
+	// executed nor mentioned in the response.
+	Omit bool
 }
 
 // NewCluster creates an empty cluster with nServers region servers named
@@ -277,12 +298,14 @@ func (c *Cluster) CreateTable(table string, splits [][]byte, assign func(i int) 
 	off := c.rng.Intn(len(addrs))
 	var out []*Region
 	bounds := append([][]byte{{}}, splits...)
+	// the regions of a pre-split table are created at the same moment: like in
+	// HBase they carry the same region id (creation timestamp) and differ by start key
+	c.nextID++
 	for i, start := range bounds {
 		var stop []byte
 		if i+1 < len(bounds) {
 			stop = bounds[i+1]
 		}
-		c.nextID++
 		r := &Region{Table: table, Start: append([]byte{}, start...), Stop: append([]byte{}, stop...), ID: c.nextID}
 		r.Name = RegionName(table, r.Start, r.ID)
 		if assign != nil {
@@ -384,6 +407,16 @@ func (c *Cluster) SetOffline(name []byte, off bool) {
 	c.Log.Add(Event{Kind: "fault", Info: fmt.Sprintf("region-offline=%v", off), Region: string(name)})
 }
 
+// SetMetaOffline sets or clears the offline flag in the region's hbase:meta row.
+func (c *Cluster) SetMetaOffline(name []byte, off bool) {
+	c.mu.Lock()
+	if r := c.regionByNameLocked(name); r != nil {
+		r.MetaOffline = off
+	}
+	c.mu.Unlock()
+	c.Log.Add(Event{Kind: "fault", Info: fmt.Sprintf("region-offline-in-meta=%v", off), Region: string(name)})
+}
+
 // SetInMeta hides a region's row from hbase:meta or shows it again: a lookup
 // for a key of a hidden region is answered with the preceding row of the table
 // (or none), as a reversed meta scan does while meta lags behind a split.
@@ -413,10 +446,9 @@ func (c *Cluster) SplitRegion(name []byte, at []byte, serverA, serverB string) (
 	if serverB == "" {
 		serverB = r.Server
 	}
-	c.nextID++
+	c.nextID++ // both daughters get the same region id, as in HBase
 	a := &Region{Table: r.Table, Start: r.Start, Stop: append([]byte{}, at...), ID: c.nextID, Server: serverA}
 	a.Name = RegionName(a.Table, a.Start, a.ID)
-	c.nextID++
 	b := &Region{Table: r.Table, Start: append([]byte{}, at...), Stop: r.Stop, ID: c.nextID, Server: serverB}
 	b.Name = RegionName(b.Table, b.Start, b.ID)
 	var keep []*Region
